@@ -181,6 +181,18 @@ LISTS = {
 }
 
 
+# lists of descriptors that carry their own length: fixed part of the descriptor, bytes of its length field
+# (designation descriptor: DESIGNATOR LENGTH, byte 3; READ FULL STATUS descriptor: ADDITIONAL DESCRIPTOR LENGTH, bytes 20-23;
+#  REPORT PRIORITY descriptor: ADDITIONAL DESCRIPTOR LENGTH, bytes 6-7; element status page: BYTE COUNT OF DESCRIPTOR DATA
+#  AVAILABLE, bytes 5-7)
+VAR_LISTS = {
+    "scsi_cdb_inquiry.Inquiry.unmarshall_datain": (4, 3, 4),
+    "scsi_cdb_persistentreservein.PersistentReserveInReadFullStatus.unmarshall_datain": (24, 20, 24),
+    "scsi_cdb_report_priority.ReportPriority.unmarshall_datain": (8, 6, 8),
+    "scsi_cdb_readelementstatus.ReadElementStatus.unmarshall_datain": (8, 5, 8),
+}
+
+
 def emit_coq():
     out = ["(* Spec/RespFormats.v — WRITTEN BY tools/spec_formats.py from the hand-written format tables in that file",
            "   (SPC-4 / SBC-3 / SMC-3 / MMC-6 response and parameter data layouts in the standards' notation: byte, msb, width).",
@@ -202,6 +214,10 @@ def emit_coq():
     out.append("Definition list_formats : list (string * (nat * (nat * nat) * nat * nat)) := [")
     out.append(";\n".join('  ("%s", (%d%%nat, (%d%%nat, %d%%nat), %d%%nat, %d%%nat))' % (k, v["start"], v["len_at"][0], v["len_at"][1], v["bias"], v["stride"])
                           for k, v in LISTS.items()) + "].")
+    out.append("")
+    out.append("(* decoder, fixed part of each descriptor, bytes [a, b) of the descriptor's own length field *)")
+    out.append("Definition var_list_formats : list (string * (nat * nat * nat)) := [")
+    out.append(";\n".join('  ("%s", (%d%%nat, %d%%nat, %d%%nat))' % (k, v[0], v[1], v[2]) for k, v in VAR_LISTS.items()) + "].")
     return "\n".join(out) + "\n"
 
 
